@@ -1,15 +1,30 @@
 import TracklibVerif.Lemmas.MapMatchSound
 import TracklibVerif.Lemmas.MapMatchViterbi
+import TracklibVerif.Lemmas.MapMatchCompose
 /-! # C10 — map-matched positions lie on a real edge within the search radius
 
-Property theorems only (helpers in `Lemmas/MapMatch.lean`, `Lemmas/MapMatchSound.lean`; they rest on the C20
-theorems), about the model `Model/MapMatch.lean` of `mapping.mapOnNetwork`, over any linearly ordered field and a
-`sqrt` with `SqrtSpec`. The candidate edge numbers returned by the spatial index and the state indices decoded by
-the HMM are PARAMETERS: the theorems hold for every index answer and every decoder. `IsFlag pos s` is the
-state `(pos, -1, -1, -1)`; `Sound … pos s` says: `s.edge` is an existing edge number, `s.p` lies on a segment of
-that edge's geometry, at a distance `d < radius` of `pos`, and (for an `abs_curv` column made by
-`computeAbsCurv`) `s.d0 + s.d1` is the edge length. Exceptions (`ZeroDivisionError` of the projection on a
-vertical segment, D16) are outside: every statement is about a call that returns. -/
+Property theorems only (helpers in `Lemmas/MapMatch.lean`, `Lemmas/MapMatchSound.lean`, `Lemmas/MapMatchNet.lean`,
+`Lemmas/MapMatchCompose.lean`; they rest on the C20 theorems), over any linearly ordered field and a `sqrt` with `SqrtSpec`
+(exact arithmetic: IEEE rounding is outside the theorems and sampled by the transfer check).
+
+Part I (T1–T3) is about the core `Model/MapMatch.lean` of `mapping.__mapOnNetwork`, where the candidate edge numbers
+returned by the spatial index and the state indices decoded by the HMM are PARAMETERS: the theorems hold for every index
+answer and every decoder. `IsFlag pos s` is the state `(pos, -1, -1, -1)`; `Sound … pos s` says: `s.edge` is an existing edge
+number, `s.p` lies on a segment of that edge's geometry, at a distance `d < radius` of `pos`, and (for an `abs_curv` column
+made by `computeAbsCurv`) `s.d0 + s.d1` is the last abscissa.
+
+Part II (T4–T12) is about `Model/MapMatchNet.lean`: the construction path (`Network.addNode` / `addEdge`, `computeAbsCurv` on
+the edge geometries, the index attached before or after the last edges), the candidates taken from the network's own index
+(the model of C08) with the search unit as coded, and the front end `mapOnNetwork` (bare track / collection, the arguments that
+are never read, the columns created on the track). There the statement is about the values a user reads:
+`Matched … (netEdges net) pos s` says that `s.edge` is an edge NUMBER of the network and `SoundOn` the geometry stored in the
+network under that number: `s.p` on one of its segments, strictly within the radius of `pos`, `s.d0` / `s.d1` the lengths of the
+two parts of that geometry on either side of `s.p` (distances to the two end nodes measured along the edge), adding up to its
+length `polyLength`. Part III (T13–T14) instantiates the two parameters with the models of C09 and C08 through their registered
+theorems.
+
+Exceptions (`ZeroDivisionError` of the projection on a vertical segment, D16; `UnboundLocalError` on a candidate edge all of
+whose vertices coincide) are outside: every statement is about a call that returns. -/
 namespace TV.C10
 open TV.Proj TV.MapMatch
 variable {α : Type} [Field α] [LinearOrder α] [IsStrictOrderedRing α]
@@ -201,5 +216,242 @@ example : (match obsStates sqTable 1 5 [mkEdge sqTable [(0, 0), (8, 0)], mkEdge 
 example : (match obsStates sqTable 1 2 [mkEdge sqTable [(0, 0), (8, 0)]] (3, 4) (some [0]) with
     | .ok [s] => decide (s.p = (3, 4) ∧ s.edge = -1 ∧ s.d0 = -1 ∧ s.d1 = -1)
     | _ => false) = true := by decide +kernel
+
+/-! ## Part II — construction path, the network's own index, front end (`Model/MapMatchNet`) -/
+
+/-- T4 `abs_curv_prefix_lengths`: `computeAbsCurv` on an edge geometry: `abs_curv[i]` is the length of the geometry up to vertex
+`i` (sum of the 2D lengths of the first `i` segments), the last value is the length of the edge. -/
+theorem abs_curv_prefix_lengths (sqrt : α → α) (g : List (α × α)) :
+    (∀ i, i < g.length → (absCurv sqrt g)[i]? = some (polyLength sqrt (g.take (i + 1)))) ∧
+    (g ≠ [] → (absCurv sqrt g)[g.length - 1]? = some (polyLength sqrt g)) :=
+  ⟨fun i hi => absCurv_take sqrt g i hi, fun hg => absCurv_last sqrt g hg⟩
+
+/-- T5 `dist_to_nodes_along_edge`: on an edge whose `abs_curv` column is the computed one, for a point `p` of segment `i`,
+`__distToNode(…, 0)` is the length of the geometry from its first vertex to `p` and `__distToNode(…, 1)` the length from `p`
+to its last vertex (both along the polyline), and they add up to the length of the edge. -/
+theorem dist_to_nodes_along_edge {sqrt : α → α} (hs : SqrtSpec sqrt) (e : Edge α) (p : α × α) (i : Nat) (a b : α)
+    (p1 p2 : α × α) (g1 : e.geom[i]? = some p1) (g2 : e.geom[i + 1]? = some p2)
+    (hon : OnSeg p1.1 p1.2 p2.1 p2.2 p.1 p.2)
+    (ha : distToNode sqrt e p i 0 = some a) (hb : distToNode sqrt e p i 1 = some b)
+    (hc : e.curv = absCurv sqrt e.geom) :
+    a = polyLength sqrt (e.geom.take (i + 1)) + dist2D sqrt p1 p ∧
+    b = polyLength sqrt (e.geom.drop (i + 1)) + dist2D sqrt p2 p ∧
+    a + b = polyLength sqrt e.geom := by
+  obtain ⟨va, vb⟩ := distToNode_values sqrt e p i a b p1 p2 g1 g2 ha hb hc
+  obtain ⟨len, hlen, hsum⟩ := distToNode_sum hs e p i a b p1 p2 g1 g2 hon ha hb hc
+  have hne : e.geom ≠ [] := by intro hnil; rw [hnil] at g1; simp at g1
+  rw [hc, absCurv_last sqrt e.geom hne] at hlen
+  injection hlen with hlen
+  exact ⟨va, vb, by rw [hsum, hlen]⟩
+
+/-- T6 `addEdge_keeps_geometry`: one `Network.addEdge(edge, source, target)` that returns: the edge is found under its id with
+its geometry and `abs_curv` column AS GIVEN (no vertex moved, nothing recomputed) and the ids of its two end nodes; every
+edge stored under another id is untouched; every node already registered keeps its coordinates (a `Node` with a known id is
+ignored, whatever its coordinates — node ids shared by edges whose end vertices differ leave all geometries alone). -/
+theorem addEdge_keeps_geometry (fl : α → Int) (net net' : Net α) (e : EdgeIn α) (s t : Node α)
+    (h : addEdge fl net e s t = .ok net') :
+    lookupEdge net'.edges e.id = some ⟨e, s.id, t.id⟩ ∧
+    (∀ i, i ≠ e.id → lookupEdge net'.edges i = lookupEdge net.edges i) ∧
+    (∀ i m, lookupNode net i = some m → lookupNode net' i = some m) :=
+  addEdge_frame fl net net' e s t h
+
+/-- T7 `built_network_edges`: a network built by `addEdge` calls with pairwise different edge ids — the spatial index being
+attached after all of them or before the last `late` ones — has, under edge NUMBER `n`, the geometry and the `abs_curv`
+column of the `n`-th edge handed over, unchanged. (What `hmm_inference` refers to by number is what was given.) -/
+theorem built_network_edges (fl : α → Int) (es : List (EdgeIn α × Node α × Node α)) (late : Nat) (res : Option (α × α))
+    (margin : α) (net : Net α) (hnd : (es.map (fun x => x.1.id)).Nodup) (h : buildNet fl es late res margin = .ok net) :
+    netEdges net = es.map (fun x => (⟨x.1.geom, x.1.curv⟩ : Edge α)) :=
+  buildNet_edges fl es late res margin net hnd h
+
+/-- T8 `states_flag_or_matched`: on edges with computed `abs_curv` columns, `STATES[i]` (any answer of the index) is the flag
+state alone, or a non-empty list of matched states: existing edge number, point on a segment of that edge's geometry,
+strictly within the radius, along-edge distances to the two ends that add up to the edge length. -/
+theorem states_flag_or_matched {sqrt : α → α} (hs : SqrtSpec sqrt) (eps radius : α) (edges : List (Edge α))
+    (hcurv : ∀ eg ∈ edges, eg.curv = absCurv sqrt eg.geom) (pos : α × α)
+    (cand : Option (List Nat)) (l : List (State α)) (h : obsStates sqrt eps radius edges pos cand = .ok l) :
+    l = [flag pos] ∨ (l ≠ [] ∧ ∀ s ∈ l, Matched sqrt radius edges pos s) :=
+  obsStates_matched hs eps radius edges hcurv pos cand l h
+
+/-- T9 `flag_iff_out_of_reach`: when `STATES[i]` is returned for the candidate edge numbers `E`, it contains a flag state
+(edge number -1: "unmatched") if and only if NO candidate edge projects strictly within the search radius — an observation
+is flagged exactly when it has no candidate in reach, and a matched state never carries the number -1. -/
+theorem flag_iff_out_of_reach (sqrt : α → α) (eps radius : α) (edges : List (Edge α)) (pos : α × α) (E : List Nat)
+    (l : List (State α)) (h : obsStates sqrt eps radius edges pos (some E) = .ok l) :
+    (∃ s ∈ l, s.edge = -1) ↔
+      ∀ (n : Nat) (eg : Edge α) (r : (α × α) × α × Nat), n ∈ E → edges[n]? = some eg →
+        projOnTrack sqrt eps eg.geom pos.1 pos.2 = .ok r → ¬ r.2.1 < radius :=
+  obsStates_flag_iff sqrt eps radius edges pos E l h
+
+/-- T10 `front_end_sound`: `mapOnNetwork(tracks, network, …)` — a bare track or a collection, any decoder, any spatial index
+attached to the network — on a network whose edge geometries carry computed `abs_curv` columns: for the `j`-th track that was
+processed, the track has the same observations (count, order, positions, timestamps), `hmm_inference` has one entry per
+observation, entry `k` is one of `STATES[k]` and is the flag state `(position, -1, -1, -1)` or a matched state: the number of
+an existing edge, a point on the geometry stored under that number, strictly within `search_radius` of the observed position,
+with distances to the two end nodes measured along that geometry that add up to its length. -/
+theorem front_end_sound {sqrt : α → α} (hs : SqrtSpec sqrt) (fl : α → Int) (eps : α) (net : Net α)
+    (hcurv : ∀ eg ∈ netEdges net, eg.curv = absCurv sqrt eg.geom) (dec : Decoder α) (a : Args α) (tracks : TracksArg α)
+    (j : Nat) (r : ResultN α) (hr : (mapOnNetworkFront sqrt fl eps net dec a tracks).1[j]? = some r) :
+    ∃ t, tracks.toList[j]? = some t ∧ r.track.obs = t.obs ∧ r.inference.length = t.obs.length ∧
+      ∀ (k : Nat) (o : Obs α) (st : State α), t.obs[k]? = some o → r.inference[k]? = some st →
+        (∃ l, r.states[k]? = some l ∧ st ∈ l) ∧
+        (st = flag o.pos ∨ Matched sqrt a.searchRadius (netEdges net) o.pos st) := by
+  obtain ⟨t, ht, hm⟩ := matchLoop_spec sqrt fl eps net dec a tracks.toList j r hr
+  obtain ⟨h1, h2, h3, _, _⟩ := matchOne_spec hs fl eps net hcurv dec a t r hm
+  exact ⟨t, ht, h1, h2, h3⟩
+
+/-- T11 `front_end_tracks_independent`: the result of the `j`-th track of a call is the result of `__mapOnNetwork` on that track
+alone (`STATES` is rebuilt for each track: nothing is carried over from the other tracks of the collection); a bare `Track` is
+handled as the collection of that one track; `transition_cost`, `debug`, `verbose` do not influence any result; and when the call
+raises nothing, every track of the collection has been processed. -/
+theorem front_end_tracks_independent (sqrt : α → α) (fl : α → Int) (eps : α) (net : Net α) (dec : Decoder α) (a : Args α) :
+    (∀ (tracks : TracksArg α) (j : Nat) (r : ResultN α), (mapOnNetworkFront sqrt fl eps net dec a tracks).1[j]? = some r →
+      ∃ t, tracks.toList[j]? = some t ∧ matchOne sqrt fl eps net dec a t = .ok r) ∧
+    (∀ t, mapOnNetworkFront sqrt fl eps net dec a (.one t) = mapOnNetworkFront sqrt fl eps net dec a (.many [t])) ∧
+    (∀ (a' : Args α) (tracks : TracksArg α), a'.gpsNoise = a.gpsNoise → a'.searchRadius = a.searchRadius →
+      mapOnNetworkFront sqrt fl eps net dec a' tracks = mapOnNetworkFront sqrt fl eps net dec a tracks) ∧
+    (∀ (tracks : TracksArg α), (mapOnNetworkFront sqrt fl eps net dec a tracks).2 = none →
+      (mapOnNetworkFront sqrt fl eps net dec a tracks).1.length = tracks.toList.length) := by
+  refine ⟨fun tracks j r h => matchLoop_spec sqrt fl eps net dec a tracks.toList j r h, fun t => rfl, ?_,
+    fun tracks h => matchLoop_complete sqrt fl eps net dec a tracks.toList h⟩
+  intro a' tracks h1 h2
+  have hone : ∀ t, matchOne sqrt fl eps net dec a' t = matchOne sqrt fl eps net dec a t := by
+    intro t; unfold matchOne; rw [h1, h2]
+  unfold mapOnNetworkFront
+  generalize tracks.toList = ts
+  induction ts with
+  | nil => rfl
+  | cons t rest ih => simp only [matchLoop, hone t, ih]
+
+/-- T12 `front_end_track_preserved`: what `mapOnNetwork` changes on a track: nothing in its observations; the feature names
+`obs_noise`, `hmm_inference`, `hmm_cost` are created when absent (every existing name kept, in place); the `obs_noise` column is
+filled with `gps_noise` when it is created and KEEPS its content when it existed (a track matched again with another noise
+value keeps the old column). -/
+theorem front_end_track_preserved {sqrt : α → α} (hs : SqrtSpec sqrt) (fl : α → Int) (eps : α) (net : Net α)
+    (hcurv : ∀ eg ∈ netEdges net, eg.curv = absCurv sqrt eg.geom) (dec : Decoder α) (a : Args α) (t : TrackS α)
+    (r : ResultN α) (h : matchOne sqrt fl eps net dec a t = .ok r) :
+    r.track.obs = t.obs ∧
+    r.track.names = addName (addName (addName t.names "obs_noise") "hmm_inference") "hmm_cost" ∧
+    (∀ n ∈ t.names, n ∈ r.track.names) ∧
+    r.track.noise = (if t.names.contains "obs_noise" then t.noise else t.obs.map (fun _ => a.gpsNoise)) := by
+  obtain ⟨h1, _, _, h4, h5⟩ := matchOne_spec hs fl eps net hcurv dec a t r h
+  have keep : ∀ (ns : List String) (m n : String), n ∈ ns → n ∈ addName ns m := by
+    intro ns m n hn
+    unfold addName; split
+    · exact hn
+    · exact List.mem_append_left _ hn
+  exact ⟨h1, h4, fun n hn => by rw [h4]; exact keep _ _ _ (keep _ _ _ (keep _ _ _ hn)), h5⟩
+
+/-- T10b `matched_on_built_network`: T10 on a network built by `addEdge` from edges made the way `NetworkReader` and the
+hand-written builders make them (`computeAbsCurv` on the geometry, then `Edge`), with pairwise different ids: a matched state
+names the number `n` of an edge handed to `addEdge` and is `SoundOn` the geometry `es[n]` — the geometry as it was given IS the
+geometry in the network, and the abscissas used are those of that geometry. -/
+theorem matched_on_built_network {sqrt : α → α} (hs : SqrtSpec sqrt) (fl : α → Int) (eps : α)
+    (es : List (EdgeIn α × Node α × Node α)) (late : Nat) (res : Option (α × α)) (margin : α) (net : Net α)
+    (hnd : (es.map (fun x => x.1.id)).Nodup) (hmade : ∀ x ∈ es, x.1.curv = absCurv sqrt x.1.geom)
+    (hb : buildNet fl es late res margin = .ok net)
+    (dec : Decoder α) (a : Args α) (tracks : TracksArg α)
+    (j : Nat) (r : ResultN α) (hr : (mapOnNetworkFront sqrt fl eps net dec a tracks).1[j]? = some r) :
+    ∃ t, tracks.toList[j]? = some t ∧ r.track.obs = t.obs ∧
+      ∀ (k : Nat) (o : Obs α) (st : State α), t.obs[k]? = some o → r.inference[k]? = some st →
+        st = flag o.pos ∨ ∃ (n : Nat) (x : EdgeIn α × Node α × Node α), st.edge = (n : Int) ∧ es[n]? = some x ∧
+          SoundOn sqrt a.searchRadius x.1.geom o.pos st := by
+  have hne := built_network_edges fl es late res margin net hnd hb
+  have hcurv : ∀ eg ∈ netEdges net, eg.curv = absCurv sqrt eg.geom := by
+    intro eg heg
+    rw [hne] at heg
+    obtain ⟨x, hx, rfl⟩ := List.mem_map.mp heg
+    exact hmade x hx
+  obtain ⟨t, ht, h1, _, h3⟩ := front_end_sound hs fl eps net hcurv dec a tracks j r hr
+  refine ⟨t, ht, h1, ?_⟩
+  intro k o st hk hst
+  rcases (h3 k o st hk hst).2 with hfl | ⟨n, eg, hn, heg, hso⟩
+  · exact Or.inl hfl
+  · right
+    rw [hne, List.getElem?_map] at heg
+    cases hx : es[n]? with
+    | none => rw [hx] at heg; simp at heg
+    | some x =>
+      rw [hx] at heg
+      simp only [Option.map_some, Option.some.injEq] at heg
+      subst heg
+      exact ⟨n, x, hn, hx, hso⟩
+
+/-! ## Part III — the two parameters instantiated with the models of C09 and C08 -/
+
+/-- T13 `viterbi_inference`: with `HMM.estimate` as modelled and proved for C09 (`Viterbi.decode`) over ANY cost tables whose
+numbers of states per epoch are the sizes of the candidate lists: decoding does not raise (`TV.C09.decode_succeeds`), its indices
+are in range (`TV.C09.decoded_valid`), and `hmm_inference[k]` is one of `STATES[k]`. The only hypothesis on `STATES` — non-empty
+lists — is what T1 / T8 prove; so T2 / T10 apply to the real decoder with no assumption on the observation and transition models. -/
+theorem viterbi_inference {β : Type} [LinearOrder β] (ss : List (List (State α))) (N : Nat) (hlen : ss.length = N + 1)
+    (hne : ∀ (k : Nat) (l : List (State α)), ss[k]? = some l → l ≠ [])
+    (t : TV.Viterbi.Tables β) (hn : ∀ (k : Nat) (l : List (State α)), ss[k]? = some l → t.n k = l.length) :
+    ∃ (r : List (Nat × β)) (inf : List (State α)), TV.Viterbi.decode t (N + 1) = .ok r ∧
+      inferAll ss (r.map Prod.fst) = .ok inf ∧ inf.length = N + 1 ∧
+      ∀ (k : Nat) (st : State α), inf[k]? = some st → ∃ l, ss[k]? = some l ∧ st ∈ l :=
+  TV.MapMatch.viterbi_inference ss N hlen hne t hn
+
+/-- T14 `near_edge_is_candidate`: the index of C08 as the source of the candidates. By `TV.C08.neighborhood_complete`, for an
+index built by the constructor on the network's geometries (`margin ≥ 0`, positive or default cell size), an observation `q`
+inside the extent and an edge number `k` with a point within distance `d` of `q`: if the unit computed by `__mapOnNetwork`
+(`ceil(search_radius / min(csize, lsize))`, from the NUMBERS of cells) is the unit `groundDistanceToUnits(d)` of the index, `k`
+is among the candidates of `q` — and then (T9) `q` is matched as soon as `k` projects within the radius. The code's unit is in
+general another number: completeness of the candidates is not part of C10 and not claimed. -/
+theorem near_edge_is_candidate {fl : α → Int} (hf : TV.Grid.IsFloor fl) (net : Net α) (res : Option (α × α)) (margin : α)
+    (ix : TV.Grid.Index α) (hm : 0 ≤ margin) (hres : ∀ r, res = some r → 0 < r.1 ∧ 0 < r.2)
+    (hb : TV.Grid.build fl (netFeatures net) res margin = .ok ix) (hix : net.index = some ix)
+    (k : Nat) (g : List (α × α)) (hk : (netFeatures net)[k]? = some g) (A B : α × α) (hAB : (A, B) ∈ TV.Grid.Consec g)
+    (s : α) (hs0 : 0 ≤ s) (hs1 : s ≤ 1) (q : α × α) (hq : TV.Grid.getCell ix q ≠ none) (d : α) (hd : 0 ≤ d)
+    (hdist : (q.1 - (TV.Grid.lerp A B s).1) ^ 2 + (q.2 - (TV.Grid.lerp A B s).2) ^ 2 ≤ d ^ 2)
+    (radius : α) (hu : ∀ u, TV.Grid.groundDistanceToUnits fl ix d = .ok u → searchUnit fl radius ix = .ok u) :
+    ∃ l, candidatesOf fl radius net q = .ok (some l) ∧ k ∈ l :=
+  TV.MapMatch.near_edge_is_candidate hf net res margin ix hm hres hb hix k g hk A B hAB s hs0 hs1 q hq d hd hdist radius hu
+
+/-! Non-vacuity of Part II, evaluated on the model over `Rat` (`Rat.floor` for `math.floor`; `sqExact` is exact on the squares of
+0..59 and answers 1000 elsewhere, so that a distance that is not rational is simply out of reach): two streets sharing node 2
+whose polylines do NOT end on the same coordinates (edge 1 starts at `(8,1)`, node 2 was registered at `(8,0)` by edge 0), built
+through `buildNet`, index of cell size 4 with margin 1/4, search radius 5. Observation `(3,4)` is matched on edge 0 at `(3,0)`
+with along-edge distances 3 and 5 (length 8); `(14,6)` on the second segment of the 3-vertex edge 1 at `(14,5)` with distances
+8 and 1 (length 9); `(3,40)`, outside the index, is flagged; the track keeps its feature `speed` and gets the three columns;
+the geometry of edge 1 in the network still starts at `(8,1)` and node 2 is still at `(8,0)`. -/
+def sqExact (v : Rat) : Rat :=
+  match (List.range 60).find? (fun k => decide (((k : Nat) : Rat) * ((k : Nat) : Rat) = v)) with
+  | some k => ((k : Nat) : Rat)
+  | none => 1000
+
+def demoEdges : List (EdgeIn Rat × Node Rat × Node Rat) :=
+  [(readerEdge sqExact 7 [(0, 0), (8, 0)] 0 8, ⟨1, (0, 0)⟩, ⟨2, (8, 0)⟩),
+   (readerEdge sqExact 3 [(8, 1), (11, 5), (15, 5)] 1 9, ⟨2, (8, 1)⟩, ⟨5, (15, 5)⟩)]
+
+def demoArgs : Args Rat := ⟨2, 10, 5, false, false⟩
+
+example : (match buildNet Rat.floor demoEdges 0 (some (4, 4)) (1/4) with
+    | .ok net =>
+      decide ((netEdges net).map (·.geom) = [[(0, 0), (8, 0)], [(8, 1), (11, 5), (15, 5)]] ∧
+              (netEdges net).map (·.curv) = [[0, 8], [0, 5, 9]] ∧
+              (lookupNode net 2).map (·.coord) = some (8, 0)) &&
+      (match mapOnNetworkFront sqExact Rat.floor 1 net (fun _ _ ss => ss.map (fun _ => 0)) demoArgs
+          (.many [⟨[⟨(3, 4), 0⟩, ⟨(14, 6), 1⟩, ⟨(3, 40), 2⟩], ["speed"], []⟩]) with
+       | ([r], none) =>
+         (match r.inference with
+          | [s0, s1, s2] =>
+            decide (s0.p = (3, 0) ∧ s0.edge = 0 ∧ s0.d0 = 3 ∧ s0.d1 = 5 ∧
+                    s1.p = (14, 5) ∧ s1.edge = 1 ∧ s1.d0 = 8 ∧ s1.d1 = 1 ∧
+                    s2.p = (3, 40) ∧ s2.edge = -1) &&
+            decide (r.track.names = ["speed", "obs_noise", "hmm_inference", "hmm_cost"] ∧ r.track.noise = [2, 2, 2] ∧
+                    r.track.obs.map (·.pos) = [(3, 4), (14, 6), (3, 40)])
+          | _ => false)
+       | _ => false)
+    | .error _ => false) = true := by decide +kernel
+
+/-- the same two streets in the other order with the index attached BEFORE the second `addEdge` (which then registers the edge in
+the index itself): same geometries by number, and `(7,2)` has a candidate on the late edge (number 1) at `(7,0)` -/
+example : (match buildNet Rat.floor demoEdges.reverse 1 (some (4, 4)) 2 with
+    | .ok net =>
+      decide ((netEdges net).map (·.geom) = [[(8, 1), (11, 5), (15, 5)], [(0, 0), (8, 0)]]) &&
+      (match mapOnNetworkFront sqExact Rat.floor 1 net (fun _ _ ss => ss.map (fun _ => 0)) demoArgs
+          (.one ⟨[⟨(7, 2), 1⟩], [], []⟩) with
+       | ([r], none) => r.states.any (fun l => l.any (fun s => decide (s.edge = 1 ∧ s.p = (7, 0) ∧ s.d0 = 7 ∧ s.d1 = 1)))
+       | _ => false)
+    | .error _ => false) = true := by decide +kernel
 
 end TV.C10
